@@ -78,7 +78,12 @@ def _run(case, rec, planar):
     xy = gp.build_polygon_xy(case["poly"])
     e = case["emb"]
     em = gp.embed(xy, e)
-    scale = 10.0 ** case.get("logs", 0.0)  # uniform scale 10^U(-8,6) in a quarter of the cases (tolerances are scale-free)
+    logs = case.get("logs", 0.0)  # uniform scale 10^U(-8,6) in a quarter of the cases (tolerances are scale-free)
+    if logs > 5.0 and e["place"] is not None:
+        # tilted planes only up to 1e5: beyond, the rounded coordinates (and the normal taken from a possibly flat first
+        # corner) miss Polygon's documented planarity test |n.v - d| <= 1e-8 + planar_tolerance*|d| for rounding alone
+        logs = 5.0
+    scale = 10.0 ** logs
     xy = xy * scale
     V, arg = em["verts"] * scale, em["normal_arg"]
     nexp = _expected_normal(V, arg)
